@@ -102,6 +102,8 @@ func c20Queries(rng *rand.Rand) c20Query {
 		{sql: "SELECT count(*) AS c, sum(v) AS s FROM stream GROUP BY CountingWindow(" + N + ")", kind: "window", window: n},
 		// expressions over two bare columns: how they are evaluated depends on the row's value types
 		{sql: "SELECT id, v + w AS s FROM stream", kind: "expr"},
+		{sql: "SELECT *, v / 4 AS r FROM stream", kind: "expr"},
+		{sql: "SELECT id, CASE WHEN v > 5 THEN 'hi' WHEN w > 5 THEN 'mid' ELSE 'lo' END AS r FROM stream", kind: "expr"},
 		{sql: "SELECT k, sum(v + w) AS s, max(v + w) AS m, count(*) AS c FROM stream GROUP BY k, CountingWindow(" + N + ")", kind: "window", window: n, group: []string{"k"}},
 		{sql: "SELECT s.id, m.loc FROM stream s JOIN meta m ON s.dev = m.dev", kind: "join", join: true},
 		{sql: "SELECT s.id, m.loc FROM stream s LEFT JOIN meta m ON s.dev = m.dev WHERE s.v > 1", kind: "join", join: true},
@@ -177,13 +179,17 @@ func c20Template(rng *rand.Rand) map[string]interface{} {
 // c20Row: the columns the query pool reads (id, v, k, dev) plus random nested baggage.
 func c20Row(rng *rand.Rand, id int) map[string]interface{} {
 	row := map[string]interface{}{"id": id, "v": rng.Intn(40), "w": rng.Intn(10), "k": c20Keys[rng.Intn(len(c20Keys))], "g": c20Keys[rng.Intn(len(c20Keys))], "dev": c20Devs[rng.Intn(len(c20Devs))]}
-	switch rng.Intn(8) {
+	switch rng.Intn(10) {
 	case 0:
 		row["v"] = nil
 	case 1:
 		delete(row, "k")
 	case 2:
 		row["v"] = float64(rng.Intn(20)) / 4
+	case 3:
+		delete(row, "v") // an operand of the pool's expressions is absent (not NULL): nothing may add it to the caller's map
+	case 4:
+		delete(row, "w")
 	}
 	if rng.Intn(2) == 0 {
 		row["m"] = c05GenValue(rng, 2)
@@ -225,6 +231,8 @@ func (c20) Gen(rng *rand.Rand, tier string, idx int) Case {
 		N := strconv.Itoa(n)
 		qa = []c20Query{
 			{sql: "SELECT id, v + w AS s FROM stream", kind: "expr"},
+		{sql: "SELECT *, v / 4 AS r FROM stream", kind: "expr"},
+		{sql: "SELECT id, CASE WHEN v > 5 THEN 'hi' WHEN w > 5 THEN 'mid' ELSE 'lo' END AS r FROM stream", kind: "expr"},
 			{sql: "SELECT k, sum(v + w) AS s, max(v + w) AS m, count(*) AS c FROM stream GROUP BY k, CountingWindow(" + N + ")", kind: "window", window: n, group: []string{"k"}},
 			{sql: "SELECT count(*) AS c, sum(v + w) AS s FROM stream GROUP BY CountingWindow(" + N + ")", kind: "window", window: n},
 		}[rng.Intn(3)]
